@@ -38,8 +38,9 @@ type c14Req struct {
 }
 
 type c14Conf struct {
-	MaxBytes int `json:"maxBytes"`
-	Exp      int `json:"exp"`
+	MaxBytes     int  `json:"maxBytes"`
+	Exp          int  `json:"exp"`
+	StoreHeaders bool `json:"storeHeaders"`
 }
 
 func cacheApp(cf c14Conf, storage fiber.Storage, s *sched) fasthttp.RequestHandler {
@@ -59,18 +60,38 @@ func cacheApp(cf c14Conf, storage fiber.Storage, s *sched) fasthttp.RequestHandl
 		KeyGenerator: func(c fiber.Ctx) string {
 			return c.Get("X-Key")
 		},
-		CacheInvalidator: func(c fiber.Ctx) bool { return c.Get("X-IV") == "1" },
+		CacheInvalidator:     func(c fiber.Ctx) bool { return c.Get("X-IV") == "1" },
+		StoreResponseHeaders: cf.StoreHeaders,
 	}))
 	app.Get("/", func(c fiber.Ctx) error {
 		if s != nil {
 			s.gate("handler", event{"ev": "handler"})
 		}
 		rs, _ := strconv.Atoi(c.Get("X-RS"))
+		// every header of the origin's response is a function of its body, so that a served response can be checked against
+		// the body the specification prescribes: content type, content encoding, a custom header, a multi-valued custom header
 		c.Set("Content-Type", "text/x-"+c.Get("X-RB"))
+		c.Set("Content-Encoding", "enc-"+c.Get("X-RB"))
+		c.Set("X-Origin", "o-"+c.Get("X-RB"))
+		c.Response().Header.Add("X-Multi", "m1-"+c.Get("X-RB"))
+		c.Response().Header.Add("X-Multi", "m2-"+c.Get("X-RB"))
 		return c.Status(rs).SendString(c.Get("X-RB"))
 	})
 	return app.Handler()
 }
+
+// c14Headers: content encoding, X-Origin and the X-Multi values of a response
+func c14Headers(rc *fasthttp.RequestCtx) (string, string, string) {
+	var multi []string // the members of the field's combined value (RFC 9110 5.3: several field lines = one comma-separated list)
+	for _, v := range rc.Response.Header.PeekAll("X-Multi") {
+		for _, m := range strings.Split(string(v), ",") {
+			multi = append(multi, strings.TrimSpace(m))
+		}
+	}
+	return string(rc.Response.Header.Peek("Content-Encoding")), string(rc.Response.Header.Peek("X-Origin")), strings.Join(multi, ",")
+}
+
+var c14LastRC *fasthttp.RequestCtx // the response of the last c14Do (sequential drivers only)
 
 func c14Do(h fasthttp.RequestHandler, r c14Req) (int, string, string, string) {
 	cc := ""
@@ -88,6 +109,7 @@ func c14Do(h fasthttp.RequestHandler, r c14Req) (int, string, string, string) {
 		iv = "1"
 	}
 	rc := doReqH(h, "GET", "/", "X-Key", r.Key, "X-RB", r.RB, "X-RS", strconv.Itoa(r.RS), "X-IV", iv, "Cache-Control", cc)
+	c14LastRC = rc
 	return rc.Response.StatusCode(), string(rc.Response.Body()), string(rc.Response.Header.Peek("X-Cache")), string(rc.Response.Header.ContentType())
 }
 
@@ -292,6 +314,20 @@ func TestC14Hist(t *testing.T) {
 						nHit++
 					}
 					okCT := ctype == "text/x-"+e.Body
+					// the encoding is part of every stored response; the origin's other headers are replayed on a hit when
+					// StoreResponseHeaders is on (without the option a hit is not required to carry them)
+					enc, xo, xm := c14Headers(c14LastRC)
+					hdrNote := ""
+					if enc != "enc-"+e.Body {
+						okCT, hdrNote = false, "Content-Encoding "+enc
+					}
+					if e.X != "hit" || cf.StoreHeaders {
+						if xo != "o-"+e.Body {
+							okCT, hdrNote = false, "X-Origin "+xo
+						} else if xm != "m1-"+e.Body+",m2-"+e.Body {
+							okCT, hdrNote = false, "X-Multi "+xm
+						}
+					}
 					if e.Amb {
 						// a tie among equally old entries was broken during or before this request: its own outcome is still
 						// determined, what follows is not
@@ -303,7 +339,7 @@ func TestC14Hist(t *testing.T) {
 					if stt != e.Status || body != e.Body || x != e.X || !okCT {
 						o.violation(map[string]any{"check": "history-step-differs", "prop": "C14", "conf": cf, "storage": kind, "history": hist, "step": step,
 							"expected": map[string]any{"status": e.Status, "body": e.Body, "x": e.X},
-							"observed": map[string]any{"status": stt, "body": body, "x": x, "ctype": ctype}})
+							"observed": map[string]any{"status": stt, "body": body, "x": x, "ctype": ctype, "header": hdrNote}})
 						break
 					}
 				}
